@@ -45,27 +45,28 @@ type OpRec struct {
 
 // HObs is what the handler side observed.
 type HObs struct {
-	Entered     int
-	EnterStep   int
-	EnterTime   time.Time
-	Recv        [][]byte
-	RecvEnd     error
-	RecvEndSet  bool
-	SendErrs    []error
-	Sent        int
-	ReqHeader   http.Header
-	HasDeadline bool
-	Deadline    time.Time
-	Returned    bool
-	ReturnStep  int
-	ReturnTime  time.Time
-	ReturnErr   error
-	CtxErr      error
-	Spec        connect.Spec
-	Peer        string
-	Panicked    bool
-	PanicValue  any
-	RecvErrs    []string
+	NeverCancelled bool // calibration world: the handler waited for its context until the server shut down
+	Entered        int
+	EnterStep      int
+	EnterTime      time.Time
+	Recv           [][]byte
+	RecvEnd        error
+	RecvEndSet     bool
+	SendErrs       []error
+	Sent           int
+	ReqHeader      http.Header
+	HasDeadline    bool
+	Deadline       time.Time
+	Returned       bool
+	ReturnStep     int
+	ReturnTime     time.Time
+	ReturnErr      error
+	CtxErr         error
+	Spec           connect.Spec
+	Peer           string
+	Panicked       bool
+	PanicValue     any
+	RecvErrs       []string
 }
 
 // CallObs is everything observed about one call.
@@ -112,7 +113,8 @@ type World struct {
 	pools     *pools
 	poolStats poolStats
 
-	real *realNet // calibration world: real net/http instead of the stub
+	real     *realNet      // calibration world: real net/http instead of the stub
+	shutdown chan struct{} // closed when the calibration world's server shuts down (nil otherwise)
 
 	buildingClient bool
 	faultAssigned  bool
@@ -146,7 +148,9 @@ func newWorld(s *core.Sched, sc *Scenario, real bool) *World {
 				}))
 			}
 		}
-		w.real = newRealNet(mux)
+		w.real = newRealNet(mux, int64(s.Tape.Choose(1<<30, "real.lag.seed")))
+		w.shutdown = make(chan struct{})
+		realShutdown = w.shutdown
 	}
 	for _, p := range sc.Calls {
 		o := &CallObs{Plan: p, CancelStep: -1}
@@ -409,7 +413,10 @@ func (e *ErrPlan) build(ctx context.Context) error {
 		return nil
 	}
 	if e.CtxErr {
-		<-ctx.Done()
+		select {
+		case <-ctx.Done():
+		case <-realShutdown: // calibration world only, see "waitctx"
+		}
 		return ctx.Err()
 	}
 	switch e.CtxKind {
@@ -521,6 +528,10 @@ func (p *PanicPlan) value() any {
 	}
 }
 
+// realShutdown is the current calibration world's shutdown channel (nil in
+// the simulated world: receiving from it blocks forever).
+var realShutdown chan struct{}
+
 type hstream struct {
 	fwd  func() // unary: pass the received request object on to a downstream client
 	recv func() ([]byte, error)
@@ -589,7 +600,14 @@ func (w *World) runProg(ctx context.Context, o *CallObs, st hstream) {
 			h.PanicValue, h.Panicked = v, true
 			panic(v)
 		case "waitctx":
-			<-ctx.Done()
+			select {
+			case <-ctx.Done():
+			case <-w.shutdown:
+				// calibration world only: net/http's HTTP/1.1 server cannot
+				// notice a disconnect while the request body is not read to its
+				// end; the handler is released when the server shuts down
+				h.NeverCancelled = true
+			}
 		case "sleep":
 			time.Sleep(time.Duration(op.Arg) * time.Microsecond)
 		}
